@@ -65,6 +65,7 @@ package sherpa
 //@   ensures rtCount <= old(rtCount) + 1
 //@   at call RoundTrip 1 assert proxyReq != nil && proxyReq.Method == r.Method && proxyReq.Body == r.Body && !ghost(w).started
 //@   at call RoundTrip 1 assert forall k string :: has(proxyReq.Header, k) ==> !sensHeader(k) && !hopHeader(k)
+//@   at call RoundTrip 1 assert forall k string :: has(r.Header, k) && !sensHeader(k) && !hopHeader(k) && !ollaHeader(k) && k != "X-Model" ==> has(proxyReq.Header, k) && proxyReq.Header[k] == r.Header[k]
 
 // ---- C18: live delivery in the sherpa engine: in streaming mode a chunk written to the client is flushed before
 // processReadResult returns to the read loop (unless the flush itself failed, which the engine tolerates).
